@@ -1538,6 +1538,11 @@ def main(tier):
                 "(import form rotates) in one coupling position (parameter annotation, return annotation - shape rotates -, default value, body instantiation at a rotating position / hidden in an argument, method call on the name, base class) "
                 "of the FIRST / MIDDLE / LAST def, the other defs bare / typed with classes of their own, in EVERY order of the members holding the defs, thresholds placed at / next to the count: "
                 "decided against Class/CBO.v (nested defs and nested-class methods flattened into methods of the class) and by the law that permuting the members leaves count, set and risk unchanged, "
+                "DEFAULT VALUES of parameters (7 hosts of the def: method, __init__, static / class / async method, helper nested in a method, method of a nested class x positional-only / ordinary / keyword-only parameter "
+                "beside *args: T / **kw: T / bare * / untyped and literal-default neighbours x 27 value forms: upper / lower / CamelCase constant name, imported / same-file / own class used as a VALUE, enum member of the annotation class and of another class, "
+                "attribute chain, subscript, a | b, unary, sum, tuple / list / dict / starred display, ternary, comparison, lambda reading a name / an attribute - none of them a coupling - and Dep(), lambda: Dep(), Dep(Conf.X, key=KEY) - an instantiation, import form rotating -; "
+                "annotation of the parameter rotating over none / built-in / project class / generic / union / string, and every value x every annotation once more; one class per host with all value forms at once; thresholds at / next to the true count): "
+                "the value is written into the .py text, Class/CBO.v gets the annotations and the instantiation only, the dependency set is compared exactly, "
                 "threshold lattice (0..10 dependencies x 10 threshold pairs), random classes (a quarter of the methods re-use the name of an earlier method) with 5 metamorphic variants each "
                 "(repeat, reorder, rename self, add unrelated, add one coupled class - also one living in another module and named like a built-in type), built-ins included (every position x built-in type; built-in function / local class in assignment-like positions), "
                 "positions outside Class/Syntax.v as Python templates (c14.EXTRA_POSITIONS that hold any expression: f-string in an implicit concatenation, yield from, except T as e, every `if` of a comprehension, typed defaults of a nested def, bases / keywords of a nested class, match guard, slices, await ...) x (local class, from-import) x (bare, hidden in an argument), decided against the ast.Call nodes of Python's own syntax tree, "
@@ -1549,7 +1554,7 @@ def main(tier):
                 "CLI runs (default, [cbo] thresholds, include_builtins = true, include_imports = false, [analysis] exclude_patterns matching class names); "
                 "distinct = distinct source texts",
         "input_distribution": dict(dist, position_table_probes=n_table, python_template_positions=n_extra, metamorphic_relations=n_meta, e2e_classes=n_e2e, subscript_forms=n_gen,
-                                   multifile_projects=len(projs), multifile_classes_checked=n_mf, samename_groups=len(sn_groups), samename_permutation_disagreements=n_perm_bad),
+                                   multifile_projects=len(projs), multifile_classes_checked=n_mf, samename_groups=len(sn_groups), param_default_cases=len(td_cases), samename_permutation_disagreements=n_perm_bad),
         "known_finding_cases": n_known,
         "model_mismatches": n_tie,
         "disagreements_checked": n_viol + n_tie + n_known,
